@@ -202,3 +202,7 @@ for u in C10.UNITS:
 
 from . import standins
 STANDINS = [standins.c12_presentations]
+
+# what a unit string means is the contract of eval_qty (C10): its data obligation (every unit name and prefix, evaluated in three different orders in
+# one process) is part of this check too -- a loader is only as unit-independent as the unit table is order-independent
+DATA = list(globals().get('DATA', [])) + list(C10.DATA)
